@@ -97,7 +97,7 @@ func parseSexprs(src string) []*sx {
 }
 
 func sxList(items ...*sx) *sx { return &sx{list: items} }
-func sxAtom(a string) *sx   { return &sx{atom: a} }
+func sxAtom(a string) *sx     { return &sx{atom: a} }
 
 func (s *sx) head() string {
 	if s.list != nil && len(s.list) > 0 && s.list[0].isAtom() {
